@@ -86,8 +86,12 @@ def body_catch(backing, n, stage, sel, with_key, x0, x1, x2, x3, r0, r1, r2, r3,
         rt.reached()
         if err is None or got != exp or e.args[0] != err[1]:
             return False
-        want = {1: E1, 2: E1Sub, 3: E2}[err[0]]
-        return type(e) is want
+        # (no dict lookup with a symbolic key: CrossHair would hand back a symbolic type object)
+        if err[0] == 1:
+            return type(e) is E1
+        if err[0] == 2:
+            return type(e) is E1Sub
+        return type(e) is E2
     rt.reached()
     return err is None and got == exp
 
